@@ -35,10 +35,12 @@ fn locked_tx() -> impl Strategy<Value = RawTx> {
 }
 
 fn locked_block() -> impl Strategy<Value = RawBlock> {
-	(raw_block(0), prop::collection::vec(locked_tx(), 0..=2), prop_oneof![6 => Just(Neg::None), 3 => Just(Neg::Immature)], any::<u16>()).prop_map(|(mut b, txs, neg, np)| {
+	(raw_block(0), prop::collection::vec(locked_tx(), 0..=2), prop_oneof![6 => Just(Neg::None), 3 => Just(Neg::Immature)], any::<u16>(), prop_oneof![6 => Just(0u8), 2 => Just(1u8), 1 => Just(2u8), 3 => Just(3u8)]).prop_map(|(mut b, txs, neg, np, inp)| {
 		b.txs = txs;
 		b.neg = neg;
 		b.neg_pick = np;
+		// the protocol-2 input form, also with misdeclared features (a coinbase spent as "Plain")
+		b.inp = inp;
 		b
 	})
 }
@@ -73,6 +75,8 @@ fn plain_block() -> RawBlock {
 		diff: 1,
 		neg: Neg::None,
 		neg_pick: 0,
+			hdr: 0,
+			inp: 0,
 	}
 }
 
@@ -125,6 +129,7 @@ pub fn run_case(ctx: &Ctx, case: &Case, counting: bool) -> PResult {
 					}
 				};
 				let on_fork = built.parent != head;
+				header_first(cb.c(), &built.block, raw.hdr, built.verdict.is_ok(), PowMode::Real)?;
 				let res = cb.c().process_block(built.block.clone(), opts(PowMode::Real));
 				let ctx_tag = if on_fork { "fork" } else { "main" };
 				if std::env::var("GV_DEBUG").is_ok() {
@@ -201,6 +206,7 @@ pub fn run_case(ctx: &Ctx, case: &Case, counting: bool) -> PResult {
 							ModelReject::ImmatureCoinbase(_) => "immature",
 							ModelReject::LockHeight(_) => "lockheight",
 							ModelReject::Nrd(_) => "nrd",
+							ModelReject::InputFeatureMismatch(_) => "input-features-misdeclared",
 							_ => "other",
 						};
 						for t in &built.tags {
@@ -243,15 +249,21 @@ pub struct PoolCase {
 	/// probes: (kind, a, b)
 	pub probes: Vec<(u8, u8, u8)>,
 	pub stem: bool,
+	/// 1 / 2: the header of a further block on top of the head is delivered without its body
+	/// (process_block_header / sync_block_headers) before the pool is probed — the pool must keep
+	/// judging "the next block" against the body head
+	#[serde(default)]
+	pub hdr_ahead: u8,
 }
 
 fn pool_case() -> impl Strategy<Value = PoolCase> {
-	(0u8..6, 0u8..4, 1u8..=3, prop::collection::vec((0u8..3, 0u8..6, 0u8..4), 3..10), any::<bool>()).prop_map(|(extra, nrd_at, nrd_rel, probes, stem)| PoolCase {
+	(0u8..6, 0u8..4, 1u8..=3, prop::collection::vec((0u8..3, 0u8..6, 0u8..4), 3..10), any::<bool>(), prop_oneof![3 => Just(0u8), 1 => Just(1u8), 1 => Just(2u8)]).prop_map(|(extra, nrd_at, nrd_rel, probes, stem, hdr_ahead)| PoolCase {
 		extra,
 		nrd_at,
 		nrd_rel,
 		probes,
 		stem,
+		hdr_ahead,
 	})
 }
 
@@ -283,6 +295,17 @@ pub fn pool_case_run(ctx: &Ctx, c: &PoolCase, counting: bool) -> PResult {
 			nrd_height = Some(h as u64);
 		}
 		head = w.push(&built, m);
+	}
+	if c.hdr_ahead != 0 {
+		let prev = w.nodes[head].block.header.clone();
+		let cbkey = (prev.height as u32 + 1) * 4 + 3;
+		let (cbref, _, _) = LIB.coinbase(0, cbkey);
+		w.note(&cbref);
+		let b = make_block(cb.c(), &prev, &[], cbkey, 47, PowMode::Real).map_err(|e| Fail::new("builder", e))?;
+		header_first(cb.c(), &b, c.hdr_ahead, true, PowMode::Real)?;
+		if counting {
+			ev.class("pool:probed_with_header_chain_ahead");
+		}
 	}
 	let model = w.nodes[head].model.clone();
 	let hh = model.height; // head height; candidate block height is hh+1
